@@ -123,20 +123,35 @@ Proof.
 Qed.
 
 (* ---------- listing ---------- *)
-Lemma mem_listed d k : mem k (listed d) = valid_name k && has_key d k.
+Lemma mem_map_filter_key {V} (f : name -> bool) (m : list (name * V)) k :
+  mem k (map fst (filter (fun p => f (fst p)) m)) = f k && has_key m k.
 Proof.
-  unfold listed, has_key. induction d as [|[a e] d IH]; simpl.
+  unfold has_key. induction m as [|[a e] m IH]; simpl.
   - rewrite andb_false_r. reflexivity.
-  - destruct (valid_name a) eqn:Va; simpl.
+  - destruct (f a) eqn:Fa; simpl.
     + rewrite IH. rewrite (beq_sym k a). destruct (bytes_eqb a k) eqn:E; simpl.
-      * apply bytes_eqb_eq in E. subst. rewrite Va. reflexivity.
+      * apply bytes_eqb_eq in E. subst. rewrite Fa. reflexivity.
       * reflexivity.
     + rewrite IH. destruct (bytes_eqb a k) eqn:E; [|reflexivity].
-      apply bytes_eqb_eq in E. subst. rewrite Va. reflexivity.
+      apply bytes_eqb_eq in E. subst. rewrite Fa. reflexivity.
 Qed.
 
+Lemma is_file_has_key0 d k : is_file d k = true -> has_key d k = true.
+Proof. unfold is_file, has_key. destruct (lookup d k) as [[| |]|]; congruence. Qed.
+
+(* the start-up scan lists exactly the blob-hash names that are (links to) regular files *)
+Lemma mem_listed d k : mem k (listed d) = valid_name k && is_file d k.
+Proof.
+  unfold listed. rewrite (mem_map_filter_key (fun n => valid_name n && is_file d n)).
+  destruct (valid_name k); [|reflexivity]. destruct (is_file d k) eqn:F; [|reflexivity].
+  rewrite (is_file_has_key0 _ _ F). reflexivity.
+Qed.
+
+Lemma mem_listed_all d k : mem k (listed_all d) = valid_name k && has_key d k.
+Proof. unfold listed_all. apply mem_map_filter_key. Qed.
+
 Lemma is_file_has_key d k : is_file d k = true -> has_key d k = true.
-Proof. unfold is_file, has_key. destruct (lookup d k) as [[|]|]; congruence. Qed.
+Proof. unfold is_file, has_key. destruct (lookup d k) as [[| |]|]; congruence. Qed.
 
 (* a blob directory that holds no sub-directories (every entry is a regular file) *)
 Definition files_only (d : disk_t) : Prop := Forall (fun p => exists sz, snd p = EFile sz) d.
@@ -307,125 +322,93 @@ Qed.
 Lemma restart_db_exact s k :
   db_status (db (restart s)) k =
   if valid_name k && is_file (disk s) k then Some Finished
-  else if mem k (listed (disk s)) then db_status (db s) k
   else match db_status (db s) k with Some Finished => Some Pending | x => x end.
 Proof.
   rewrite restart_db. rewrite ensure_status by apply all_true_nil.
   rewrite status_sync. rewrite !mem_filter. rewrite mem_listed.
   unfold is_finished.
-  destruct (valid_name k) eqn:V; destruct (is_file (disk s) k) eqn:F; cbn [andb].
-  - rewrite (is_file_has_key _ _ F). cbn [andb negb].
+  destruct (valid_name k) eqn:V; destruct (is_file (disk s) k) eqn:F; cbn [andb negb];
     destruct (db_status (db s) k) as [[|]|]; reflexivity.
-  - rewrite andb_false_r.
-    destruct (has_key (disk s) k); destruct (db_status (db s) k) as [[|]|]; reflexivity.
-  - destruct (db_status (db s) k) as [[|]|]; reflexivity.
-  - destruct (db_status (db s) k) as [[|]|]; reflexivity.
 Qed.
 
 Lemma restart_completed_In s h :
   In h (completed (restart s)) <->
-  valid_name h = true /\ has_key (disk s) h = true /\ db_status (db s) h = Some Finished.
+  valid_name h = true /\ is_file (disk s) h = true /\ db_status (db s) h = Some Finished.
 Proof.
   rewrite restart_completed, In_fold_set_add. simpl.
   rewrite <- mem_In, mem_filter, mem_listed. unfold is_finished.
-  destruct (valid_name h); destruct (has_key (disk s) h); destruct (db_status (db s) h) as [[|]|];
+  destruct (valid_name h); destruct (is_file (disk s) h); destruct (db_status (db s) h) as [[|]|];
     simpl; intuition congruence.
 Qed.
 
 Lemma restart_completed_NoDup s : NoDup (completed (restart s)).
 Proof. rewrite restart_completed. apply NoDup_fold_set_add. constructor. Qed.
 
-(* ----- the clauses of the property ----- *)
-Lemma completed_have_entries s h : In h (completed (restart s)) ->
-  valid_name h = true /\ has_key (disk (restart s)) h = true /\ db_status (db s) h = Some Finished.
-Proof. rewrite restart_disk. apply restart_completed_In. Qed.
-
-Lemma completed_have_files s h : files_only (disk s) -> In h (completed (restart s)) ->
+(* ----- the clauses of the property: no assumption on what the directory contains ----- *)
+Lemma completed_have_files s h : In h (completed (restart s)) ->
   valid_name h = true /\ is_file (disk (restart s)) h = true.
-Proof.
-  intros F H. apply restart_completed_In in H as [V [K _]]. rewrite restart_disk.
-  split; [exact V | apply files_only_is_file; assumption].
-Qed.
+Proof. intro H. apply restart_completed_In in H as [V [K _]]. rewrite restart_disk. auto. Qed.
 
 Lemma files_finished s h : valid_name h = true -> is_file (disk s) h = true ->
   db_status (db (restart s)) h = Some Finished.
 Proof. intros V F. rewrite restart_db_exact, V, F. reflexivity. Qed.
 
-Lemma missing_downgraded s h : db_status (db s) h = Some Finished -> mem h (listed (disk s)) = false ->
+Lemma missing_downgraded s h : db_status (db s) h = Some Finished -> is_file (disk s) h = false ->
   db_status (db (restart s)) h = Some Pending.
-Proof.
-  intros D M. rewrite restart_db_exact, M, D.
-  rewrite mem_listed in M.
-  destruct (valid_name h) eqn:V; destruct (is_file (disk s) h) eqn:F; try reflexivity.
-  rewrite (is_file_has_key _ _ F) in M. discriminate.
-Qed.
+Proof. intros D M. rewrite restart_db_exact, M, D. rewrite andb_false_r. reflexivity. Qed.
 
-Lemma finished_have_entries s h : db_status (db (restart s)) h = Some Finished ->
-  valid_name h = true /\ has_key (disk s) h = true.
-Proof.
-  rewrite restart_db_exact.
-  destruct (valid_name h) eqn:V; destruct (is_file (disk s) h) eqn:F; cbn [andb].
-  - intros _. split; [reflexivity | apply is_file_has_key; exact F].
-  - rewrite mem_listed, V. cbn [andb]. destruct (has_key (disk s) h); [auto|].
-    destruct (db_status (db s) h) as [[|]|]; discriminate.
-  - rewrite mem_listed, V. cbn [andb]. destruct (db_status (db s) h) as [[|]|]; discriminate.
-  - rewrite mem_listed, V. cbn [andb]. destruct (db_status (db s) h) as [[|]|]; discriminate.
-Qed.
-
-Lemma finished_have_files s h : files_only (disk s) -> db_status (db (restart s)) h = Some Finished ->
+Lemma finished_have_files s h : db_status (db (restart s)) h = Some Finished ->
   valid_name h = true /\ is_file (disk s) h = true.
 Proof.
-  intros F H. apply finished_have_entries in H as [V K]. split; [exact V | apply files_only_is_file; assumption].
+  rewrite restart_db_exact.
+  destruct (valid_name h); destruct (is_file (disk s) h); cbn [andb]; auto;
+    destruct (db_status (db s) h) as [[|]|]; discriminate.
 Qed.
 
 (* what must NOT change *)
-Lemma rows_frame s h : mem h (listed (disk s)) = false ->
+Lemma rows_frame s h : is_file (disk s) h = false ->
   db_status (db (restart s)) h = match db_status (db s) h with Some Finished => Some Pending | x => x end.
-Proof.
-  intro M. rewrite restart_db_exact, M. rewrite mem_listed in M.
-  destruct (valid_name h) eqn:V; destruct (is_file (disk s) h) eqn:F; try reflexivity.
-  rewrite (is_file_has_key _ _ F) in M. discriminate.
-Qed.
+Proof. intro M. rewrite restart_db_exact, M. rewrite andb_false_r. reflexivity. Qed.
 
 Lemma rows_not_invented s h : db_status (db s) h = None -> db_status (db (restart s)) h <> None ->
   valid_name h = true /\ is_file (disk s) h = true /\ db_status (db (restart s)) h = Some Finished.
 Proof.
   intros D. rewrite restart_db_exact, D.
-  destruct (valid_name h); destruct (is_file (disk s) h); cbn [andb]; try (destruct (mem h (listed (disk s))); congruence).
-  auto.
+  destruct (valid_name h); destruct (is_file (disk s) h); cbn [andb]; try congruence. auto.
 Qed.
 
 Lemma rows_not_deleted s h : db_status (db s) h <> None -> db_status (db (restart s)) h <> None.
 Proof.
   rewrite restart_db_exact.
   destruct (valid_name h && is_file (disk s) h); [discriminate|].
-  destruct (mem h (listed (disk s))); [tauto|].
   destruct (db_status (db s) h) as [[|]|]; congruence.
 Qed.
 
 (* ----- a further restart with nothing changed ----- *)
-Lemma second_restart_general s h :
-  In h (completed (restart (restart s))) <->
-  valid_name h = true /\ (is_file (disk s) h = true \/
-                          (is_dir (disk s) h = true /\ db_status (db s) h = Some Finished)).
+Lemma second_restart_exact s h :
+  In h (completed (restart (restart s))) <-> valid_name h = true /\ is_file (disk s) h = true.
 Proof.
-  rewrite restart_completed_In. rewrite restart_disk. rewrite restart_db_exact, mem_listed.
-  unfold has_key, is_file, is_dir.
-  destruct (valid_name h); destruct (lookup (disk s) h) as [[sz|]|]; cbn [andb];
+  rewrite restart_completed_In. rewrite restart_disk. rewrite restart_db_exact.
+  destruct (valid_name h); destruct (is_file (disk s) h); cbn [andb];
     destruct (db_status (db s) h) as [[|]|]; intuition congruence.
 Qed.
 
-Lemma second_restart_exact s h : files_only (disk s) ->
-  (In h (completed (restart (restart s))) <-> valid_name h = true /\ is_file (disk s) h = true).
+(* whatever is not a (link to a) regular file -- nothing there, a directory, a dangling link -- is neither
+   'finished' after a start nor ever reported, whatever the table said *)
+Lemma second_restart_general s h : is_file (disk s) h = false ->
+  db_status (db (restart s)) h <> Some Finished /\
+  ~ In h (completed (restart s)) /\ ~ In h (completed (restart (restart s))).
 Proof.
-  intro F. rewrite second_restart_general. rewrite (files_only_not_dir _ h F). intuition congruence.
+  intro K. split; [|split].
+  - intro H. apply finished_have_files in H as [_ H]. congruence.
+  - intro H. apply restart_completed_In in H as [_ [H _]]. congruence.
+  - intro H. apply second_restart_exact in H as [_ H]. congruence.
 Qed.
 
 Lemma restart_db_idempotent s h : db_status (db (restart (restart s))) h = db_status (db (restart s)) h.
 Proof.
   rewrite (restart_db_exact (restart s)). rewrite restart_disk. rewrite (restart_db_exact s).
   destruct (valid_name h && is_file (disk s) h); [reflexivity|].
-  destruct (mem h (listed (disk s))); [reflexivity|].
   destruct (db_status (db s) h) as [[|]|]; reflexivity.
 Qed.
 
@@ -440,7 +423,7 @@ Qed.
 Lemma get_blob_files_only sv d c h len : files_only d -> files_only (fst (fst (get_blob sv d c h len))).
 Proof.
   unfold get_blob. intro F. destruct (lookup c h); [exact F|].
-  destruct (lookup d h) as [[sz|]|]; try exact F.
+  destruct (lookup d h) as [[sz| |]|]; try exact F.
   destruct ((len =? 0) || (len =? sz)); [exact F | apply files_only_remove; exact F].
 Qed.
 
@@ -466,6 +449,53 @@ Proof.
   induction hs as [|h r IH]; intros s F; cbn [delete_loop]; [exact F|].
   destruct (valid_name h); [|exact F]. apply IH. apply delete_blob_files_only. exact F.
 Qed.
+
+(* ---- daemon_start: what it does to the directory ---- *)
+Lemma get_blob_len0_disk sv d c h : fst (fst (get_blob sv d c h 0)) = d.
+Proof.
+  unfold get_blob. destruct (lookup c h); [reflexivity|]. destruct (lookup d h) as [[sz| |]|]; reflexivity.
+Qed.
+
+Lemma recover_sd_disk s st :
+  disk (recover_sd s st) = disk s \/ disk (recover_sd s st) = write_file (disk s) (st_sd st) (st_len st).
+Proof.
+  unfold recover_sd. pose proof (get_blob_len0_disk (save s) (disk s) (cache s) (st_sd st)) as G.
+  destruct (get_blob (save s) (disk s) (cache s) (st_sd st) 0) as [[d1 [kd v]] c1]. cbn [fst snd] in *. subst d1.
+  destruct (negb (rows_present s st)); [left; reflexivity|]. destruct v; [left; reflexivity|].
+  destruct (kd && is_file (disk s) (st_sd st)); [left; reflexivity|].
+  destruct kd; unfold blob_completed, buffer_completed; cbn [disk]; auto.
+Qed.
+
+Lemma store_recovered_disk s st : disk (store_recovered s st) = disk s.
+Proof. reflexivity. Qed.
+
+Lemma load_stream_disk s st : disk (load_stream s st) = disk s.
+Proof.
+  unfold load_stream. pose proof (get_blob_len0_disk (save s) (disk s) (cache s) (st_sd st)) as G.
+  destruct (get_blob (save s) (disk s) (cache s) (st_sd st) 0) as [[d1 e] c1]. cbn [fst] in G. subst. reflexivity.
+Qed.
+
+Lemma fold_disk_pres (P : disk_t -> Prop) (f : state -> stream_t -> state) l :
+  (forall s st, P (disk s) -> P (disk (f s st))) -> forall s, P (disk s) -> P (disk (fold_left f l s)).
+Proof. intro H. induction l as [|x l IH]; intros s0 H0; cbn [fold_left]; [exact H0|]. apply IH. apply H. exact H0. Qed.
+
+Lemma daemon_start_disk_pres (P : disk_t -> Prop) :
+  (forall d h sz, P d -> P (write_file d h sz)) -> forall s streams, P (disk s) -> P (disk (daemon_start s streams)).
+Proof.
+  intros W s streams H. unfold daemon_start.
+  set (s0 := restart s). set (rec := filter (needs_recovery s0) streams).
+  set (s1 := fold_left recover_sd rec s0). set (s2 := fold_left store_recovered (filter (rows_present s0) rec) s1).
+  assert (H1 : P (disk s1)).
+  { apply fold_disk_pres; [|unfold s0; rewrite restart_disk; exact H].
+    intros t st Ht. destruct (recover_sd_disk t st) as [E|E]; rewrite E; [exact Ht | apply W; exact Ht]. }
+  assert (H2 : P (disk s2)).
+  { apply fold_disk_pres; [|exact H1]. intros t st Ht. rewrite store_recovered_disk. exact Ht. }
+  destruct (ensure_completed _ _ _ _) as [db3 c3].
+  apply fold_disk_pres; [|cbn [disk]; exact H2]. intros t st Ht. rewrite load_stream_disk. exact Ht.
+Qed.
+
+Lemma daemon_start_files_only s streams : files_only (disk s) -> files_only (disk (daemon_start s streams)).
+Proof. apply daemon_start_disk_pres. intros d h sz. apply files_only_write. Qed.
 
 Lemma step_files_only s o : is_ext_dir o = false -> files_only (disk s) -> files_only (disk (fst (step s o))).
 Proof.
@@ -501,10 +531,14 @@ Proof.
   - (* ext_file *) cbn [fst]. destruct (is_dir (disk s) n); [exact F|]. cbn [with_disk disk].
     apply files_only_set. exact F.
   - (* ext_remove *) cbn [fst with_disk disk]. apply files_only_remove. exact F.
+  - (* ext_link: only links to regular files are admitted here *)
+    destruct target as [sz|]; [|cbn in ND; discriminate ND]. cbn [fst].
+    destruct (lookup (disk s) n); [exact F|]. cbn [with_disk disk]. apply files_only_set. exact F.
   - (* ext_db *) destruct st; cbn [fst with_db disk]; exact F.
   - (* ext_mark *) cbn [fst]. destruct (db_status (db s) h); exact F.
   - (* restart *) cbn [fst]. rewrite restart_disk. exact F.
   - (* restart with save *) cbn [fst]. rewrite restart_with_disk. exact F.
+  - (* daemon start *) cbn [fst]. apply daemon_start_files_only. destruct b; exact F.
 Qed.
 
 Lemma run_files_only ops : forall s, forallb (fun o => negb (is_ext_dir o)) ops = true ->
@@ -518,7 +552,7 @@ Qed.
 Lemma init_files_only : files_only (disk init).
 Proof. constructor. Qed.
 
-(* the whole property for any history without planted directories *)
+(* the whole property, for ANY pre-state: whatever the directory and the table contain *)
 Definition bookkeeping_ok (s0 s1 : state) : Prop :=
   disk s1 = disk s0 /\
   (forall h, In h (completed s1) -> valid_name h = true /\ is_file (disk s1) h = true) /\
@@ -526,28 +560,24 @@ Definition bookkeeping_ok (s0 s1 : state) : Prop :=
   (forall h, db_status (db s0) h = Some Finished -> is_file (disk s0) h = false -> db_status (db s1) h = Some Pending) /\
   (forall h, db_status (db s1) h = Some Finished -> valid_name h = true /\ is_file (disk s1) h = true).
 
-Lemma restart_ok s : files_only (disk s) -> bookkeeping_ok s (restart s).
+Lemma restart_ok s : bookkeeping_ok s (restart s).
 Proof.
-  intro F. unfold bookkeeping_ok. rewrite restart_disk. split; [reflexivity|]. split; [|split; [|split]].
-  - intros h H. pose proof (completed_have_files s h F H) as [V K]. rewrite restart_disk in K. auto.
+  unfold bookkeeping_ok. rewrite restart_disk. split; [reflexivity|]. split; [|split; [|split]].
+  - intros h H. pose proof (completed_have_files s h H) as [V K]. rewrite restart_disk in K. auto.
   - intros h V K. apply files_finished; assumption.
-  - intros h D K. apply missing_downgraded; [exact D|].
-    rewrite mem_listed. destruct (valid_name h); [|reflexivity]. cbn [andb].
-    destruct (has_key (disk s) h) eqn:HK; [|reflexivity].
-    rewrite (files_only_is_file _ _ F HK) in K. discriminate.
+  - intros h D K. apply missing_downgraded; assumption.
   - intros h H. apply finished_have_files; assumption.
 Qed.
 
-Lemma history_ok ops : forallb (fun o => negb (is_ext_dir o)) ops = true ->
+(* every history: any list of operations, directories and dangling links included *)
+Lemma history_ok ops :
   let s := run init ops in
   bookkeeping_ok s (restart s) /\
   (forall h, In h (completed (restart (restart s))) <-> valid_name h = true /\ is_file (disk s) h = true) /\
   (forall h, db_status (db (restart (restart s))) h = db_status (db (restart s)) h).
 Proof.
-  intros H s.
-  assert (F : files_only (disk s)) by (apply run_files_only; [exact H | apply init_files_only]).
-  split; [apply restart_ok; exact F|]. split.
-  - intro h. apply second_restart_exact. exact F.
+  intro s. split; [apply restart_ok|]. split.
+  - intro h. apply second_restart_exact.
   - intro h. apply restart_db_idempotent.
 Qed.
 
@@ -627,7 +657,7 @@ Qed.
 Lemma get_blob_NoDup sv d c h len : NoDup (map fst d) -> NoDup (map fst (fst (fst (get_blob sv d c h len)))).
 Proof.
   unfold get_blob. intro F. destruct (lookup c h); [exact F|].
-  destruct (lookup d h) as [[sz|]|]; try exact F.
+  destruct (lookup d h) as [[sz| |]|]; try exact F.
   destruct ((len =? 0) || (len =? sz)); [exact F | apply NoDup_remove_key; exact F].
 Qed.
 
@@ -667,6 +697,56 @@ Qed.
 
 Lemma restart_with_keys_unique s b : keys_unique s -> keys_unique (restart_with s b).
 Proof. intro K. unfold restart_with. apply restart_keys_unique. exact K. Qed.
+
+Lemma fold_insert_pending_names_NoDup (l : list name) : forall db, NoDup (map fst db) ->
+  NoDup (map fst (fold_left (fun acc h => db_insert_ignore acc h Pending) l db)).
+Proof. induction l as [|x l IH]; intros db H; cbn [fold_left]; [exact H|]. apply IH. apply NoDup_insert_ignore. exact H. Qed.
+
+Lemma recover_sd_keys_unique s st : keys_unique s -> keys_unique (recover_sd s st).
+Proof.
+  intros [Hd [Hb Hc]]. unfold recover_sd.
+  pose proof (get_blob_len0_disk (save s) (disk s) (cache s) (st_sd st)) as G.
+  destruct (get_blob (save s) (disk s) (cache s) (st_sd st) 0) as [[d1 [kd v]] c1]. cbn [fst snd] in *. subst d1.
+  assert (K1 : forall c, keys_unique (mkState (disk s) (db s) (completed s) c (alive s) (save s) (marked s)))
+    by (intro; split; [|split]; assumption).
+  destruct (negb (rows_present s st)); [apply K1|]. destruct v; [apply K1|].
+  destruct (kd && is_file (disk s) (st_sd st)); [apply K1|].
+  destruct kd; unfold blob_completed, buffer_completed, keys_unique; cbn [disk db completed].
+  - split; [apply NoDup_write_file; exact Hd|]. split; [apply NoDup_db_add; exact Hb | apply NoDup_set_add; exact Hc].
+  - split; [exact Hd|]. split; [apply NoDup_db_add; exact Hb | exact Hc].
+Qed.
+
+Lemma store_recovered_keys_unique s st : keys_unique s -> keys_unique (store_recovered s st).
+Proof.
+  intros [Hd [Hb Hc]]. unfold store_recovered, keys_unique. cbn [disk db completed].
+  split; [exact Hd|]. split; [|exact Hc]. apply fold_insert_pending_names_NoDup. apply NoDup_db_delete_all. exact Hb.
+Qed.
+
+Lemma load_stream_keys_unique s st : keys_unique s -> keys_unique (load_stream s st).
+Proof.
+  intros [Hd [Hb Hc]]. unfold load_stream.
+  pose proof (get_blob_len0_disk (save s) (disk s) (cache s) (st_sd st)) as G.
+  destruct (get_blob (save s) (disk s) (cache s) (st_sd st) 0) as [[d1 e] c1]. cbn [fst] in G. subst.
+  split; [|split]; assumption.
+Qed.
+
+Lemma fold_keys_unique (f : state -> stream_t -> state) l :
+  (forall s st, keys_unique s -> keys_unique (f s st)) -> forall s, keys_unique s -> keys_unique (fold_left f l s).
+Proof. intro H. induction l as [|x l IH]; intros s0 H0; cbn [fold_left]; [exact H0|]. apply IH. apply H. exact H0. Qed.
+
+Lemma daemon_start_keys_unique s streams : keys_unique s -> keys_unique (daemon_start s streams).
+Proof.
+  intro K. unfold daemon_start.
+  set (s0 := restart s). set (rec := filter (needs_recovery s0) streams).
+  set (s1 := fold_left recover_sd rec s0). set (s2 := fold_left store_recovered (filter (rows_present s0) rec) s1).
+  assert (K2 : keys_unique s2).
+  { apply fold_keys_unique; [apply store_recovered_keys_unique|].
+    apply fold_keys_unique; [apply recover_sd_keys_unique|]. apply restart_keys_unique. exact K. }
+  pose proof (NoDup_ensure (disk s2) (flat_map st_names (filter (rows_present s0) rec)) (db s2) (cache s2)) as E.
+  destruct (ensure_completed _ _ _ _) as [db3 c3]. cbn [fst] in E.
+  apply fold_keys_unique; [apply load_stream_keys_unique|].
+  destruct K2 as [Hd [Hb Hc]]. split; [exact Hd|]. split; [apply E; exact Hb | exact Hc].
+Qed.
 
 Lemma step_keys_unique s o : keys_unique s -> keys_unique (fst (step s o)).
 Proof.
@@ -719,12 +799,15 @@ Proof.
     split; [apply NoDup_set_key; exact Hd | split; assumption].
   - cbn [fst]. unfold keys_unique, with_disk. cbn [disk db completed].
     split; [apply NoDup_remove_key; exact Hd | split; assumption].
+  - cbn [fst]. destruct (lookup (disk s) n); [exact K|]. unfold keys_unique, with_disk. cbn [disk db completed].
+    split; [apply NoDup_set_key; exact Hd | split; assumption].
   - destruct st; cbn [fst]; unfold keys_unique, with_db; cbn [disk db completed].
     + split; [exact Hd|]. split; [apply NoDup_update, NoDup_insert_ignore; exact Hb | exact Hc].
     + split; [exact Hd|]. split; [unfold db_delete; apply NoDup_remove_key; exact Hb | exact Hc].
   - cbn [fst]. destruct (db_status (db s) h); exact K.
   - cbn [fst]. apply restart_keys_unique. exact K.
   - cbn [fst]. apply restart_with_keys_unique. exact K.
+  - cbn [fst]. apply daemon_start_keys_unique. destruct b; exact K.
 Qed.
 
 Lemma run_keys_unique ops : forall s, keys_unique s -> keys_unique (run s ops).
@@ -771,7 +854,7 @@ Lemma get_blob_spec sv d c h len d1 e c1 : get_blob sv d c h len = (d1, e, c1) -
 Proof.
   unfold get_blob. destruct (lookup c h) as [e0|] eqn:L.
   - intro H. inversion H. subst. repeat split; auto. discriminate.
-  - destruct (lookup d h) as [[sz|]|] eqn:D.
+  - destruct (lookup d h) as [[sz| |]|] eqn:D.
     + destruct ((len =? 0) || (len =? sz)); intro H; inversion H; subst; clear H.
       * split; [auto|]. split; [rewrite lookup_set_key, bytes_eqb_refl; reflexivity|].
         split; [intros k Hk; rewrite lookup_set_key, Hk; reflexivity|]. split; [discriminate | auto].
@@ -779,6 +862,10 @@ Proof.
         { intros k. rewrite is_file_remove_key. destruct (bytes_eqb h k); [discriminate | auto]. }
         split; [rewrite lookup_set_key, bytes_eqb_refl; reflexivity|].
         split; [intros k Hk; rewrite lookup_set_key, Hk; reflexivity|]. split; [discriminate | auto].
+    + intro H; inversion H; subst; clear H.
+      split; [auto|]. split; [rewrite lookup_set_key, bytes_eqb_refl; reflexivity|].
+      split; [intros k Hk; rewrite lookup_set_key, Hk; reflexivity|].
+      split; [|auto]. intros _ _. unfold is_file. rewrite D. reflexivity.
     + intro H; inversion H; subst; clear H.
       split; [auto|]. split; [rewrite lookup_set_key, bytes_eqb_refl; reflexivity|].
       split; [intros k Hk; rewrite lookup_set_key, Hk; reflexivity|].
@@ -996,19 +1083,19 @@ Lemma restart_with_same s b :
   disk (restart_with s b) = disk (restart s) /\ db (restart_with s b) = db (restart s) /\
   completed (restart_with s b) = completed (restart s).
 Proof.
-  unfold restart_with, restart, setup, wipe. cbn [disk db completed cache save].
+  unfold restart_with, set_save, restart, setup, wipe. cbn [disk db completed cache save].
   destruct (sync_missing (db s) (listed (disk s))) as [db1 to_add].
   destruct (ensure_completed _ _ _ _). cbn [disk db completed]. auto.
 Qed.
 
 (* the plan's two headline statements, assembled *)
-Lemma setup_idempotent s : files_only (disk s) ->
+Lemma setup_idempotent s :
   disk (restart (restart s)) = disk s /\
   (forall h, In h (completed (restart (restart s))) <-> valid_name h = true /\ is_file (disk s) h = true) /\
   (forall h, db_status (db (restart (restart s))) h = db_status (db (restart s)) h).
 Proof.
-  intro F. split; [rewrite !restart_disk; reflexivity|]. split.
-  - intro h. apply second_restart_exact. exact F.
+  split; [rewrite !restart_disk; reflexivity|]. split.
+  - intro h. apply second_restart_exact.
   - intro h. apply restart_db_idempotent.
 Qed.
 
@@ -1019,17 +1106,17 @@ Proof.
   unfold is_finished in H. destruct (db_status (db s) h) as [[|]|]; congruence.
 Qed.
 
-Lemma announced_have_files head s h : files_only (disk s) -> In h (announce_list head (restart s)) ->
+Lemma announced_have_files head s h : In h (announce_list head (restart s)) ->
   valid_name h = true /\ is_file (disk (restart s)) h = true.
 Proof.
-  intros F H. apply announce_finished in H. rewrite restart_disk. apply finished_have_files; assumption.
+  intro H. apply announce_finished in H. rewrite restart_disk. apply finished_have_files; assumption.
 Qed.
 
-Lemma announce_all_exact s h : files_only (disk s) ->
-  (In h (announce_list false (restart s)) <-> valid_name h = true /\ is_file (disk s) h = true).
+Lemma announce_all_exact s h :
+  In h (announce_list false (restart s)) <-> valid_name h = true /\ is_file (disk s) h = true.
 Proof.
-  intro F. split.
-  - intro H. pose proof (announced_have_files false s h F H) as [V K]. rewrite restart_disk in K. auto.
+  split.
+  - intro H. pose proof (announced_have_files false s h H) as [V K]. rewrite restart_disk in K. auto.
   - intros [V K]. pose proof (files_finished s h V K) as D. unfold announce_list. apply filter_In. split.
     + unfold db_status in D. apply lookup_some_in in D. exact D.
     + unfold is_finished. rewrite D. reflexivity.
@@ -1041,3 +1128,257 @@ Proof.
   unfold announce_list. intro H. apply filter_In in H as [K H]. apply andb_true_iff in H as [H1 H2].
   cbn [negb orb] in H2. split; [|exact H2]. apply filter_In. split; [exact K|]. rewrite H1. reflexivity.
 Qed.
+
+(* ---------- daemon start = BlobManager.setup + StreamManager.initialize_from_database ---------- *)
+Lemma is_file_write_gen d h sz k :
+  is_file (write_file d h sz) k = if is_dir d h then is_file d k else if bytes_eqb h k then true else is_file d k.
+Proof. unfold write_file. destruct (is_dir d h); [reflexivity | apply is_file_set_key]. Qed.
+
+Lemma is_dir_write_gen d h sz k : is_dir (write_file d h sz) k = true -> is_dir d k = true.
+Proof.
+  unfold write_file. destruct (is_dir d h); [auto|]. unfold is_dir. rewrite lookup_set_key.
+  destruct (bytes_eqb h k); [discriminate | auto].
+Qed.
+
+Lemma get_blob_len0_spec sv d c h e c1 : get_blob sv d c h 0 = (d, e, c1) ->
+  lookup c1 h = Some e /\
+  (forall k, bytes_eqb h k = false -> lookup c1 k = lookup c k) /\
+  (lookup c h = Some e \/ (lookup c h = None /\ (snd e = false -> is_file d h = false))).
+Proof.
+  unfold get_blob. destruct (lookup c h) as [e0|] eqn:L.
+  - intro H. inversion H. subst. auto.
+  - unfold is_file. destruct (lookup d h) as [[sz| |]|]; cbn [N.eqb orb]; intro H; inversion H; subst; clear H;
+      (split; [rewrite lookup_set_key, bytes_eqb_refl; reflexivity|]);
+      (split; [intros k Hk; rewrite lookup_set_key, Hk; reflexivity|]); right; split; auto; cbn [snd]; discriminate.
+Qed.
+
+Section DaemonStart.
+  Variable L : list stream_t.
+
+  Definition files_are_finished (s : state) : Prop :=
+    forall k, valid_name k = true -> is_file (disk s) k = true -> db_status (db s) k = Some Finished.
+  Definition finished_are_files (s : state) : Prop :=
+    forall k, db_status (db s) k = Some Finished -> is_file (disk s) k = true.
+  Definition unverified_fileless (s : state) : Prop :=
+    forall k e, lookup (cache s) k = Some e -> snd e = false -> is_file (disk s) k = false.
+  Definition completed_are_files (s : state) : Prop := forall k, In k (completed s) -> is_file (disk s) k = true.
+  Definition no_dir_under_sd (s : state) : Prop := forall st, In st L -> is_dir (disk s) (st_sd st) = false.
+
+  Definition good (s : state) : Prop :=
+    finished_are_files s /\ unverified_fileless s /\ completed_are_files s /\ no_dir_under_sd s.
+
+  Lemma recover_sd_good s st : In st L -> good s -> good (recover_sd s st).
+  Proof.
+    intros HL [IF [J [IC ND]]]. unfold recover_sd.
+    pose proof (get_blob_len0_disk (save s) (disk s) (cache s) (st_sd st)) as G.
+    pose proof (get_blob_len0_spec (save s) (disk s) (cache s) (st_sd st)) as S.
+    destruct (get_blob (save s) (disk s) (cache s) (st_sd st) 0) as [[d1 [kd v]] c1]. cbn [fst snd] in G. subst d1.
+    specialize (S (kd, v) c1 eq_refl) as [Lh [Lo Hit]]. cbn [fst snd] in *.
+    assert (J1 : forall k e, lookup c1 k = Some e -> snd e = false -> is_file (disk s) k = false).
+    { intros k e Lk Hk. destruct (bytes_eqb (st_sd st) k) eqn:B.
+      - apply bytes_eqb_eq in B. subst k. rewrite Lh in Lk. inversion Lk. subst e. cbn [snd] in Hk.
+        destruct Hit as [Hit|[_ Hit]]; [apply (J _ _ Hit Hk) | apply Hit; exact Hk].
+      - rewrite (Lo _ B) in Lk. apply (J _ _ Lk Hk). }
+    assert (G1 : forall c, (forall k e, lookup c k = Some e -> snd e = false -> is_file (disk s) k = false) ->
+                 good (mkState (disk s) (db s) (completed s) c (alive s) (save s) (marked s))).
+    { intros c Jc. split; [exact IF|]. split; [exact Jc|]. split; [exact IC | exact ND]. }
+    destruct (negb (rows_present s st)); [apply G1; exact J1|]. destruct v; [apply G1; exact J1|].
+    destruct (kd && is_file (disk s) (st_sd st)); [apply G1; exact J1|].
+    pose proof (ND st HL) as NDst.
+    destruct kd; unfold blob_completed, buffer_completed, good, finished_are_files, unverified_fileless,
+      completed_are_files, no_dir_under_sd; cbn [disk db completed cache].
+    - split; [|split; [|split]].
+      + intro k. rewrite status_add_finished, is_file_write_gen, NDst.
+        destruct (bytes_eqb (st_sd st) k); [reflexivity | apply IF].
+      + intros k e. rewrite lookup_set_key, is_file_write_gen, NDst. destruct (bytes_eqb (st_sd st) k).
+        * intro E. inversion E. subst e. discriminate.
+        * apply J1.
+      + intros k Hk. rewrite is_file_write_gen, NDst. apply In_set_add in Hk as [->|Hk].
+        * rewrite bytes_eqb_refl. reflexivity.
+        * destruct (bytes_eqb (st_sd st) k); [reflexivity | apply IC; exact Hk].
+      + intros st' Hs'. destruct (is_dir (write_file (disk s) (st_sd st) (st_len st)) (st_sd st')) eqn:Dd; [|reflexivity].
+        apply is_dir_write_gen in Dd. rewrite (ND st' Hs') in Dd. discriminate.
+    - split; [|split; [|split]].
+      + intros k Hk. apply IF. rewrite status_add_pending in Hk.
+        destruct (db_status (db s) k) as [x|]; [exact Hk|]. destruct (bytes_eqb (st_sd st) k); discriminate.
+      + intros k e. rewrite lookup_set_key. destruct (bytes_eqb (st_sd st) k).
+        * intro E. inversion E. subst e. discriminate.
+        * apply J1.
+      + exact IC.
+      + exact ND.
+  Qed.
+
+  Lemma recover_sd_fin s st : files_are_finished s -> files_are_finished (recover_sd s st).
+  Proof.
+    intros IFn. unfold recover_sd.
+    pose proof (get_blob_len0_disk (save s) (disk s) (cache s) (st_sd st)) as G.
+    destruct (get_blob (save s) (disk s) (cache s) (st_sd st) 0) as [[d1 [kd v]] c1]. cbn [fst snd] in G. subst d1.
+    cbn [fst snd]. destruct (negb (rows_present s st)); [exact IFn|]. destruct v; [exact IFn|].
+    destruct (kd && is_file (disk s) (st_sd st)); [exact IFn|].
+    destruct kd; unfold blob_completed, buffer_completed, files_are_finished; cbn [disk db].
+    - intros k Vk. rewrite status_add_finished, is_file_write_gen.
+      destruct (bytes_eqb (st_sd st) k); [reflexivity|]. destruct (is_dir (disk s) (st_sd st)); apply IFn; exact Vk.
+    - intros k Vk Hk. apply status_add_pending_finished. apply IFn; assumption.
+  Qed.
+
+  Lemma fold_recover_good l : (forall st, In st l -> In st L) -> forall s, good s -> good (fold_left recover_sd l s).
+  Proof.
+    induction l as [|x l IH]; intros Sub s Gd; cbn [fold_left]; [exact Gd|].
+    apply IH; [intros st Hs; apply Sub; right; exact Hs|]. apply recover_sd_good; [apply Sub; left; reflexivity | exact Gd].
+  Qed.
+
+  Lemma fold_recover_fin l : forall s, files_are_finished s -> files_are_finished (fold_left recover_sd l s).
+  Proof. induction l as [|x l IH]; intros s H; cbn [fold_left]; [exact H|]. apply IH. apply recover_sd_fin. exact H. Qed.
+
+  (* storage.recover_streams: the rows of the stream are 'pending', every other row is untouched *)
+  Lemma fold_insert_pending_names_status (l : list name) k : forall db,
+    db_status (fold_left (fun acc h => db_insert_ignore acc h Pending) l db) k =
+    match db_status db k with Some x => Some x | None => if mem k l then Some Pending else None end.
+  Proof.
+    induction l as [|x l IH]; intro db; cbn [fold_left mem existsb].
+    - destruct (db_status db k); reflexivity.
+    - fold (mem k l). rewrite IH, status_insert_ignore. rewrite (beq_sym k x).
+      destruct (db_status db k); [reflexivity|]. destruct (bytes_eqb x k); [reflexivity|]. reflexivity.
+  Qed.
+
+  Lemma store_recovered_status s st k :
+    db_status (db (store_recovered s st)) k =
+    if mem k (st_blobs st ++ [st_sd st]) then Some Pending else db_status (db s) k.
+  Proof.
+    unfold store_recovered. cbn [db]. rewrite fold_insert_pending_names_status, status_delete_all.
+    destruct (mem k (st_blobs st ++ [st_sd st])); [reflexivity|]. destruct (db_status (db s) k); reflexivity.
+  Qed.
+
+  Lemma mem_names_swap k st : mem k (st_blobs st ++ [st_sd st]) = mem k (st_names st).
+  Proof.
+    unfold st_names. rewrite mem_app. cbn [mem existsb]. fold (mem k (st_blobs st)).
+    rewrite orb_false_r. apply orb_comm.
+  Qed.
+
+  Lemma mem_flat_map k (l : list stream_t) :
+    mem k (flat_map st_names l) = existsb (fun st => mem k (st_names st)) l.
+  Proof. induction l as [|x l IH]; cbn [flat_map existsb]; [reflexivity|]. rewrite mem_app, IH. reflexivity. Qed.
+
+  Lemma fold_store_status l k : forall s,
+    db_status (db (fold_left store_recovered l s)) k =
+    if mem k (flat_map st_names l) then Some Pending else db_status (db s) k.
+  Proof.
+    induction l as [|x l IH]; intro s; cbn [fold_left flat_map]; [reflexivity|].
+    rewrite IH, store_recovered_status, mem_names_swap, mem_app.
+    destruct (mem k (st_names x)); destruct (mem k (flat_map st_names l)); reflexivity.
+  Qed.
+
+  Lemma fold_store_same l : forall s,
+    disk (fold_left store_recovered l s) = disk s /\ cache (fold_left store_recovered l s) = cache s /\
+    completed (fold_left store_recovered l s) = completed s.
+  Proof.
+    induction l as [|x l IH]; intro s; cbn [fold_left]; [auto|].
+    destruct (IH (store_recovered s x)) as [A [B C]]. rewrite A, B, C. repeat split; reflexivity.
+  Qed.
+
+  (* ensure_completed_blobs_status under a cache whose unverified entries have no file *)
+  Lemma ensure_status_gen d hs : forall (db : db_t) (c : cache_t) k,
+    (forall x (e : centry), lookup c x = Some e -> snd e = false -> is_file d x = false) ->
+    db_status (fst (ensure_completed d hs db c)) k = (if mem k hs && is_file d k then Some Finished else db_status db k) /\
+    (forall x e, lookup (snd (ensure_completed d hs db c)) x = Some e -> snd e = false -> is_file d x = false).
+  Proof.
+    induction hs as [|h r IH]; intros db c k Jc; cbn [ensure_completed].
+    - split; [reflexivity | exact Jc].
+    - assert (V : is_blob_verified d c h = is_file d h).
+      { unfold is_blob_verified. destruct (is_file d h) eqn:F; [|reflexivity]. destruct (lookup c h) as [e|] eqn:Lc; [|reflexivity].
+        destruct (snd e) eqn:Se; [reflexivity|]. rewrite (Jc _ _ Lc Se) in F. discriminate. }
+      rewrite V. cbn [mem existsb]. fold (mem k r). destruct (is_file d h) eqn:F.
+      + assert (Jc' : forall x (e : centry), lookup (match lookup c h with Some _ => c | None => set_key c h (true, true) end) x = Some e ->
+                        snd e = false -> is_file d x = false).
+        { destruct (lookup c h); [exact Jc|]. intros x e. rewrite lookup_set_key. destruct (bytes_eqb h x).
+          - intro E. inversion E. subst e. discriminate.
+          - apply Jc. }
+        cbv iota. destruct (IH (db_add db h true) _ k Jc') as [St Jr]. split; [|exact Jr].
+        refine (eq_trans St _). rewrite status_add_finished. rewrite (beq_sym k h). destruct (bytes_eqb h k) eqn:E; cbn [orb].
+        * apply bytes_eqb_eq in E. subst. rewrite F. destruct (mem k r); reflexivity.
+        * reflexivity.
+      + cbv iota. destruct (IH db c k Jc) as [St Jr]. split; [|exact Jr]. rewrite St. rewrite (beq_sym k h).
+        destruct (bytes_eqb h k) eqn:E; cbn [orb]; [|reflexivity].
+        apply bytes_eqb_eq in E. subst. rewrite F, andb_false_r. reflexivity.
+  Qed.
+
+  Lemma load_stream_same s st :
+    disk (load_stream s st) = disk s /\ db (load_stream s st) = db s /\ completed (load_stream s st) = completed s /\
+    marked (load_stream s st) = marked s.
+  Proof.
+    unfold load_stream. pose proof (get_blob_len0_disk (save s) (disk s) (cache s) (st_sd st)) as G.
+    destruct (get_blob (save s) (disk s) (cache s) (st_sd st) 0) as [[d1 e] c1]. cbn [fst] in G. subst. auto.
+  Qed.
+
+  Lemma fold_load_same l : forall s,
+    disk (fold_left load_stream l s) = disk s /\ db (fold_left load_stream l s) = db s /\
+    completed (fold_left load_stream l s) = completed s /\ marked (fold_left load_stream l s) = marked s.
+  Proof.
+    induction l as [|x l IH]; intro s; cbn [fold_left]; [auto|].
+    destruct (IH (load_stream s x)) as [A [B [C D]]]. destruct (load_stream_same s x) as [A' [B' [C' D']]].
+    rewrite A, B, C, D. auto.
+  Qed.
+
+  Lemma restart_good s : no_dir_under_sd s -> good (restart s).
+  Proof.
+    intro ND. split; [|split; [|split]].
+    - intros k Hk. apply finished_have_files in Hk as [_ Hk]. rewrite restart_disk. exact Hk.
+    - intros k e Lk Hk. rewrite (restart_cache_all_true s _ _ Lk) in Hk. discriminate.
+    - intros k Hk. apply completed_have_files in Hk as [_ Hk]. exact Hk.
+    - intros st Hs. rewrite restart_disk. apply ND. exact Hs.
+  Qed.
+
+  (* the three clauses after a daemon start that had to recover any number of the streams L *)
+  Lemma daemon_start_ok s : no_dir_under_sd s ->
+    let t := daemon_start s L in
+    (forall h, In h (completed t) -> is_file (disk t) h = true) /\
+    (forall h, valid_name h = true -> is_file (disk t) h = true -> db_status (db t) h = Some Finished) /\
+    (forall h, db_status (db t) h = Some Finished -> is_file (disk t) h = true).
+  Proof.
+    intros ND t. subst t. unfold daemon_start.
+    set (s0 := restart s). set (rec := filter (needs_recovery s0) L).
+    set (rst := filter (rows_present s0) rec).
+    set (s1 := fold_left recover_sd rec s0). set (s2 := fold_left store_recovered rst s1).
+    assert (Sub : forall st, In st rec -> In st L) by (intros st Hs; apply filter_In in Hs; tauto).
+    pose proof (fold_recover_good rec Sub s0 (restart_good s ND)) as [IF1 [J1 [IC1 _]]].
+    assert (Fin0 : files_are_finished s0) by (intros k Vk Hk; unfold s0 in *; rewrite restart_disk in Hk; apply files_finished; assumption).
+    pose proof (fold_recover_fin rec s0 Fin0) as Fin1. fold s1 in IF1, J1, IC1, Fin1.
+    destruct (fold_store_same rst s1) as [D2 [C2 K2]]. fold s2 in D2, C2, K2.
+    assert (J2 : forall x e, lookup (cache s2) x = Some e -> snd e = false -> is_file (disk s2) x = false)
+      by (rewrite C2, D2; exact J1).
+    pose proof (fun k => ensure_status_gen (disk s2) (flat_map st_names rst) (db s2) (cache s2) k J2) as E.
+    destruct (ensure_completed (disk s2) (flat_map st_names rst) (db s2) (cache s2)) as [db3 c3]. cbn [fst snd] in E.
+    destruct (fold_load_same L (mkState (disk s2) db3 (completed s2) c3 (alive s2) (save s2) (marked s2))) as [Dt [Bt [Ct _]]].
+    rewrite Dt, Bt, Ct. cbn [disk db completed]. rewrite D2, K2.
+    split; [exact IC1|]. split.
+    - intros h Vh Hh. destruct (E h) as [St _]. rewrite St, D2, Hh.
+      destruct (mem h (flat_map st_names rst)) eqn:M; [reflexivity|]. cbn [andb].
+      unfold s2. rewrite fold_store_status, M. apply Fin1; assumption.
+    - intros h Hh. destruct (E h) as [St _]. rewrite St, D2 in Hh.
+      destruct (mem h (flat_map st_names rst)) eqn:M; cbn [andb] in Hh.
+      + destruct (is_file (disk s1) h); [reflexivity|]. unfold s2 in Hh. rewrite fold_store_status, M in Hh. discriminate.
+      + unfold s2 in Hh. rewrite fold_store_status, M in Hh. apply IF1. exact Hh.
+  Qed.
+End DaemonStart.
+
+Lemma daemon_start_disk_grows s L h : is_file (disk s) h = true -> is_file (disk (daemon_start s L)) h = true.
+Proof.
+  revert h. apply (daemon_start_disk_pres (fun d => forall h, is_file (disk s) h = true -> is_file d h = true)); [|auto].
+  intros d x sz H h Hh. rewrite is_file_write_gen. destruct (is_dir d x); [auto|]. destruct (bytes_eqb x h); auto.
+Qed.
+
+(* a further start (of the blob manager alone or of the whole daemon) after a daemon start reports exactly the files *)
+Lemma daemon_start_then_restart_exact s L h :
+  (forall st, In st L -> is_dir (disk s) (st_sd st) = false) ->
+  (In h (completed (restart (daemon_start s L))) <->
+   valid_name h = true /\ is_file (disk (daemon_start s L)) h = true).
+Proof.
+  intro ND. destruct (daemon_start_ok L s ND) as [_ [Fin _]]. rewrite restart_completed_In. split.
+  - tauto.
+  - intros [V F]. auto.
+Qed.
+
+Lemma daemon_start_announced_have_files s L head h :
+  (forall st, In st L -> is_dir (disk s) (st_sd st) = false) ->
+  In h (announce_list head (daemon_start s L)) -> is_file (disk (daemon_start s L)) h = true.
+Proof. intros ND H. destruct (daemon_start_ok L s ND) as [_ [_ IF]]. apply IF. apply (announce_finished head). exact H. Qed.
